@@ -23,13 +23,13 @@
 (* settings are those of the last acknowledged connection; in the probe a Clean Start 0         *)
 (* reconnect finds the session, gets the in-flight messages again and receives through the      *)
 (* obligated subscriptions; a Clean Start 1 connection receives nothing.                        *)
-EXTENDS Storage, Json, IOUtils, SequencesExt, FiniteSetsExt
+EXTENDS StorageKV, Json, IOUtils, SequencesExt, FiniteSetsExt
 
 Trace   == ndJsonDeserialize(IOEnv.VERIF_TRACE)
 OutFile == IOEnv.VERIF_OUT
 
-VARIABLES l, R, conns, del, liveK, live, dead, seenSF, tZ, persisted, post, pconns, probing, bad, nruns, nobl, backend
-vars == <<l, R, conns, del, liveK, live, dead, seenSF, tZ, persisted, post, pconns, probing, bad, nruns, nobl, backend>>
+VARIABLES l, R, conns, del, liveK, live, dead, seenSF, tZ, persisted, zdel, post, pconns, probing, bad, nruns, nobl, backend
+vars == <<l, R, conns, del, liveK, live, dead, seenSF, tZ, persisted, zdel, post, pconns, probing, bad, nruns, nobl, backend>>
 
 RECURSIVE JoinFrom(_, _)
 JoinFrom(f, i) == IF i > Len(f) THEN "" ELSE IF i = Len(f) THEN f[i] ELSE f[i] \o "/" \o JoinFrom(f, i + 1)
@@ -122,6 +122,7 @@ JudgeRestart(e) ==
             IF x[1] \in Ids(sv) /\ \E i \in ToSet(Cli(sv, x[1]).inf) : i.ty = 3 /\ i.topic = x[2] /\ i.m = x[3] THEN {}
             ELSE {CW("C21.inflight.lost", x[1], x[3],
                      IF <<x[1], x[3]>> \notin persisted THEN "acked-before-persisted"
+                     ELSE IF <<x[1], x[3]>> \in zdel THEN "deleted-by-superseded"
                      ELSE IF x[1] \in Ids(sv) /\ \E i \in ToSet(Cli(sv, x[1]).inf) : i.pid = 0 THEN "pid0"
                      ELSE IF x[1] \notin Ids(sv) THEN (IF x[1] \in tZ THEN "session-lost-zombie" ELSE "session-lost") ELSE "")}
             : x \in R.inf}
@@ -143,8 +144,9 @@ JudgeProbe(e) ==
                 why == IF c \in Ids(post) /\ \E i \in ToSet(Cli(post, c).inf) : i.pid = 0 THEN "pid0" ELSE IF c \in tZ THEN "zombie" ELSE ""
             IN (IF must /\ ~\E p \in acks : p.sp THEN {CW("C21.probe.session-present", c, "want 1", why)} ELSE {})
                \cup (IF must /\ e.k \in ToSet(e.closed) THEN {CW("C21.probe.connection-closed", c, "", why)} ELSE {})
-               \cup {CW("C21.probe.not-redelivered", c, x[3], why)
-                        : x \in {y \in R.inf : y[1] = c /\ ~\E p \in OutOf(e, e.k) : p.t = 3 /\ p.topic = y[2] /\ p.m = y[3] /\ p.qos > 0}}
+               \cup {CW("C21.probe.not-redelivered", c, x[3], why)      \* restored (a loss is reported at the restart line) but not sent again
+                        : x \in {y \in R.inf : y[1] = c /\ c \in Ids(post) /\ (\E i \in ToSet(Cli(post, c).inf) : i.ty = 3 /\ i.topic = y[2] /\ i.m = y[3])
+                                                /\ ~\E p \in OutOf(e, e.k) : p.t = 3 /\ p.topic = y[2] /\ p.m = y[3] /\ p.qos > 0}}
       [] e.ev = "publish" /\ e.err = "" ->
             LET ts == Join(e.a.t)
                 got == {k \in DOMAIN e.out \ {e.k} : \E p \in ToSet(e.out[k]) : p.t = 3 /\ p.m = e.a.m}
@@ -157,7 +159,7 @@ JudgeProbe(e) ==
       [] OTHER -> {}
 
 Init == /\ l = 1 /\ R = R0 /\ conns = <<>> /\ del = <<>> /\ liveK = <<>> /\ live = <<>> /\ dead = FALSE /\ seenSF = {} /\ tZ = {}
-        /\ persisted = {} /\ post = <<>> /\ pconns = <<>> /\ probing = FALSE /\ bad = <<>> /\ nruns = 0 /\ nobl = 0 /\ backend = ""
+        /\ persisted = {} /\ zdel = {} /\ post = <<>> /\ pconns = <<>> /\ probing = FALSE /\ bad = <<>> /\ nruns = 0 /\ nobl = 0 /\ backend = ""
 
 Next ==
     /\ l <= Len(Trace)
@@ -199,6 +201,14 @@ Next ==
                             ELSE W[CHOOSE j2 \in ps : \A j3 \in ps : j3 <= j2].conn # W[j].conn}}
           /\ persisted' = IF e.ev = "Config" THEN {}
                           ELSE persisted \cup {<<W[i].c, W[i].m>> : i \in {j \in 1..Len(W) : W[j].h = "qos_publish" /\ W[j].ty = 3}}
+          /\ zdel' = IF e.ev = "Config" THEN {}
+                     ELSE LET RECURSIVE Z(_, _)
+                              Z(z, i) == IF i > Len(W) THEN z
+                                         ELSE IF W[i].h \in {"qos_dropped", "qos_complete"} /\ W[i].to /\ <<W[i].c, W[i].pid>> \in DOMAIN d2
+                                              THEN Z(z \cup {<<W[i].c, d2[<<W[i].c, W[i].pid>>][2]>>}, i + 1)
+                                         ELSE IF W[i].h = "qos_publish" /\ W[i].ty = 3 THEN Z(z \ {<<W[i].c, W[i].m>>}, i + 1)
+                                         ELSE Z(z, i + 1)
+                          IN Z(zdel, 1)
           /\ seenSF' = CASE e.ev = "Config" -> {}
                          [] e.ev \in {"subscribe", "unsubscribe"} -> seenSF \cup {<<e.c, Join(e.a.filters[i].f)>> : i \in 1..Len(e.a.filters)}
                          [] OTHER -> seenSF
